@@ -42,7 +42,7 @@ META = {"C16": {
                     "variable the other writes; no step-ending statements in the executed variant"],
     "probes": ["temp_clash", "loop_counter_clash", "flag_clash", "id_clash", "predicate_custom",
                "disagree_initial", "disagree_transition", "interleaved", "handwritten_ids", "fusion_of_a_fusion",
-               "phase_record_name_differs_from_key", "methods_with_implicit_solves", "method_used_before_fusion",
+               "phase_record_name_differs_from_key", "methods_with_implicit_solves", "method_used_before_fusion", "statement_classes_with_asserts_stripped",
                "earlier_fusion_of_same_objects"],
 }}
 
@@ -214,8 +214,17 @@ def _run_c16(ctx):
     scA = ScriptGen(tape, max_ops=6, max_depth=2, persistent_p=False, forbid=forbid, cfg=cfgA, implicit=implicit).gen()
     scB = ScriptGen(tape, max_ops=6, max_depth=2, persistent_p=False, forbid=forbid_b, cfg=cfgB,
                     implicit=implicit).gen()
+    with tape.span("process_config"):
+        # process configuration: python -O (the statement classes of both methods come from dagrt.language
+        # compiled without assert statements)
+        lang = None
+        if tape.chance(0.2, "asserts_stripped"):
+            from simdag.gen.script import language_without_asserts
+            lang = language_without_asserts()
+            ctx.count("probe:statement_classes_with_asserts_stripped")
+            ctx.count("fault:python_O")
     try:
-        apA, apB = apply_script(scA), apply_script(scB)
+        apA, apB = apply_script(scA, lang), apply_script(scB, lang)
     except Exception:
         raise Discard("builder-exception")
     ctx.decoded["script_A"] = scA.text(apA.nm)
@@ -355,7 +364,7 @@ def _run_c16(ctx):
                         state_num=["<state>q", "<state>qc"], state_int=["<state>l"], state_arr=["<state>c"])
             scC = ScriptGen(tape, max_ops=4, max_depth=1, persistent_p=False, forbid=forbid, cfg=cfgC).gen()
             try:
-                apC = apply_script(scC)
+                apC = apply_script(scC, lang)
             except Exception:
                 raise Discard("builder-exception")
             dagC = build_dag(scC, apC)
